@@ -8,10 +8,10 @@ Case forms (all JSON):
   {"op": "kymo"|"scan", "iw": [...], "P":, ["L", "fast", "slow", "scan_count"], "channels": {...}, "lead": {...}}
                                                                       explicit object (corpus, replays)
   {"op": "window", ...}                                               kymograph restricted to whole lines
-  {"op": "seq", "kind": "kymo"|"scan", "gen": {...} | explicit keys, "queries": [0|1|2|3|4, ...]}
+  {"op": "seq", "kind": "kymo"|"scan", "gen": {...} | explicit keys, "queries": [0|1|2|3|4|5, ...]}
         a SEQUENCE of queries on ONE object (0,1,2 = get_image of red, green, blue; 3 = get_image("rgb");
-        4 = Kymo.shape): what an earlier query left behind (memoised images, a repaired start) is visible to the
-        later ones
+        4 = Kymo.shape / Scan.shape; 5 = Scan.num_frames (scans only)): what an earlier query left behind (memoised
+        images, a repaired start, a frame count stored back into the metadata) is visible to the later ones
 
 Channel modes beyond builders_confocal.random_channels (made here, see `local_channel`): "after" (the stream exists
 but starts at/after the end of the info wave), "before" (it ends at/before the first info-wave sample) - colours
@@ -80,6 +80,10 @@ THEOREMS = [
     "Verif.C02.kymo_entry_is_assigned",
     "Verif.C02.scan_entry_is_assigned",
     "Verif.C02.scan_shape_matches_image",
+    # strengthening round H
+    "Verif.C02.scan_meta_history_independent",
+    "Verif.C02.scan_meta_queries_separate",
+    "Verif.C02.scan_shape_query_matches_image",
 ]
 RULE = (
     "corpus (documented interleaved-discard wave, non-constant samples per pixel, truncated colours) + exhaustive small "
@@ -89,7 +93,7 @@ RULE = (
     "counts 2^i (a pixel value identifies exactly which samples were summed), several target shapes, plus waves with "
     "the undocumented code 3, plus size mismatches (direct call only); (b) real Kymo objects for P<=3, k<=2, dead<=2, lead-in<=1, "
     "lines<=3 and real Scan objects for P,L in {2,3}, k<=2, dead<=2, frames<=2 (+frame dead time), both fast-axis "
-    "orders, metadata frame count 0 and explicit, each truncated at EVERY sample (quick: a subset of these layouts, every "
+    "orders, metadata frame count 0 and explicit (Scan.shape is ALSO asked first of a new object), each truncated at EVERY sample (quick: a subset of these layouts, every "
     "2nd/3rd truncation point), with a full "
     "red (ids), an early+short green and a blue channel that is absent, recorded only AFTER the item ended, or stopped "
     "BEFORE it began (a colour without data in the scan although the channel exists; in a fifth of the cases green is "
@@ -98,8 +102,9 @@ RULE = (
     "kymographs P<=3, 3-4 lines, k<=2, dead 1-2 whose photon stream starts at EVERY sample of the first line and just "
     "behind it, the other colours absent / complete / recorded after the item / late as well, asked in every order of "
     "a first round, then all colours and rgb once more (quick: every 37th), plus EVERY sequence of up to three queries on "
-    "small kymographs and scans without a late stream (quick: every 5th), each ALSO replayed query by query on NEW objects "
-    "(history independence; model: c02.kymopure/scanpure), plus regular kymographs lead<=2, k<=3, d<=3, P<=4, n<=4 with a "
+    "small kymographs and scans without a late stream (quick: every 5th; scans: Scan.shape and Scan.num_frames are queries "
+    "too, metadata frame count 0 / explicit - the reconstructed count is stored by the first num_frames -), each ALSO "
+    "replayed query by query on NEW objects (history independence; model: c02.kymopure/scanmpure), plus regular kymographs lead<=2, k<=3, d<=3, P<=4, n<=4 with a "
     "green stream 1 sample / half a line / a whole line late (start after the repair and the red image afterwards; quick: "
     "every 4th), plus seeded random sequences on random "
     "kymographs and scans (colours full/absent/short/long/early/after/before/late/late-far); (b'') kymographs "
@@ -264,38 +269,36 @@ def seq_has_late(e):
     return any(shared_span(e, c) == "late" for c in COLORS)
 
 
+def ask(obj, q):
+    """one query of a sequence, as a canonical string"""
+    try:
+        if q < 3:
+            return show_img(obj.get_image(COLORS[q]))
+        if q == 3:
+            return show_img(obj.get_image("rgb"))
+        if q == 4:
+            return show_shape(obj.shape)
+        return str(int(obj.num_frames))
+    except Exception as ex:
+        return errname(ex)
+
+
 def impl_seq(case):
     """the answers of a sequence of queries on ONE object, joined by ';'"""
     e = explicit(case)
-    out = []
     with bc.quiet():
         try:
             obj = bc.object_from_case(e)
         except Exception as ex:
             return [errname(ex)] * (2 if seq_has_late(e) else 3)
-        for q in case["queries"]:
-            try:
-                if q < 3:
-                    out.append(show_img(obj.get_image(COLORS[q])))
-                elif q == 3:
-                    out.append(show_img(obj.get_image("rgb")))
-                else:
-                    out.append(show_shape(obj.shape))
-            except Exception as ex:
-                out.append(errname(ex))
+        out = [ask(obj, q) for q in case["queries"]]
         res = [";".join(out), show_start(obj, e)]
         if not seq_has_late(e):
-            # the same queries, each asked to a NEW object (history independence; model side: c02.kymopure/scanpure)
+            # the same queries, each asked to a NEW object (history independence; model side: c02.kymopure/scanmpure)
             fresh = []
             for q in case["queries"]:
                 try:
-                    obj = bc.object_from_case(e)
-                    if q < 3:
-                        fresh.append(show_img(obj.get_image(COLORS[q])))
-                    elif q == 3:
-                        fresh.append(show_img(obj.get_image("rgb")))
-                    else:
-                        fresh.append(show_shape(obj.shape))
+                    fresh.append(ask(bc.object_from_case(e), q))
                 except Exception as ex:
                     fresh.append(errname(ex))
             res.append(";".join(fresh))
@@ -475,7 +478,7 @@ def impl(case):
         try:
             obj = bc.object_from_case(e)
         except Exception as ex:
-            return [errname(ex)] * 7
+            return [errname(ex)] * (8 if e["kind"] == "scan" else 7)
         totals = []
         for color in COLORS:
             try:
@@ -500,7 +503,15 @@ def impl(case):
                 )
         except Exception as ex:
             out.append(errname(ex))
-    return out + totals  # 3 images, metadata, 3 image totals (c02.total)
+        first = []
+        if e["kind"] == "scan":
+            # Scan.shape asked FIRST of a new object: nothing has evaluated num_frames on it yet (the library stores the
+            # reconstructed frame count back into the metadata the first time num_frames is read)
+            try:
+                first.append(show_shape(bc.object_from_case(e).shape))
+            except Exception as ex:
+                first.append(errname(ex))
+    return out + totals + first  # 3 images, metadata, 3 image totals (c02.total), scans: the shape asked first
 
 
 # ------------------------------------------------------------------ ops
@@ -529,7 +540,8 @@ def ops(case):
     out = []
     if case["op"] == "seq":
         chans = " ".join(f"{int(lead.get(c, 0))} {enc_chan(e['channels'].get(c))}" for c in COLORS)
-        head = f"c02.kymoseq {e['P']}" if e["kind"] == "kymo" else f"c02.scanseq {e['fast']} {e['P']} {e['slow']} {e['L']}"
+        head = (f"c02.kymoseq {e['P']}" if e["kind"] == "kymo"
+                else f"c02.scanmseq {e['fast']} {e['P']} {e['slow']} {e['L']} {int(e.get('scan_count', 0))}")
         lines = [f"{head} {iw} {chans} {enc_list(case['queries'])}"]
         lines.append(lines[0].replace("seq ", "seqoff ", 1))
         if not seq_has_late(e):
@@ -547,6 +559,8 @@ def ops(case):
     kd = "k" if e["kind"] == "kymo" else "s"
     for c in COLORS:
         out.append(f"c02.total {kd} {iw} {int(lead.get(c, 0))} {enc_chan(e['channels'].get(c))}")
+    if e["kind"] == "scan":
+        out.append(f"c02.scanmseq {ax} {int(e.get('scan_count', 0))} {iw} 0 N 0 N 0 N [4]")
     return out
 
 
@@ -639,6 +653,17 @@ def expected_colour(e, color):
     return expected_image(e, px), "pixel-placement", total
 
 
+def scan_meta_expected(e):
+    """(number of frames, Scan.shape) the property states: pixels per line / lines per frame from the metadata, the
+    number of frames from the metadata - reconstructed from the info wave (ceil(#pixels / pixels per frame)) when the
+    metadata says zero -, no frame axis for a single frame"""
+    P, L = e["P"], e["L"]
+    sc = int(e.get("scan_count", 0))
+    nf = sc if sc != 0 else -(-bc.count_pixels(e["iw"]) // (P * L))
+    ypix, xpix = (L, P) if e["fast"] < e["slow"] else (P, L)
+    return nf, ([nf] if nf > 1 else []) + [ypix, xpix, 3]
+
+
 def parse_img(a):
     """'[shape] [flat]' -> (shape, flat) or None for an error name"""
     if not a.startswith("["):
@@ -694,6 +719,17 @@ def oracle_seq(case, ia):
                 imgs = [parse_img(exp[c][0]) for c in COLORS]
                 if imgs[0][0] == imgs[1][0] == imgs[2][0] and a != stack_str(imgs):
                     return f"pixel-placement: query #{i} of the sequence {Q}: rgb image is {a[:200]}, expected {stack_str(imgs)[:200]}"
+            elif e["kind"] == "scan":
+                # Scan.shape / Scan.num_frames follow the metadata (frames reconstructed from the info wave when it says
+                # zero) - whatever was or was not asked of the object before
+                if bc.count_pixels(e["iw"]) == 0:
+                    continue
+                nf, shape = scan_meta_expected(e)
+                want = show_shape(shape) if q == 4 else str(nf)
+                if a != want:
+                    return (f"shape: query #{i} of the sequence {Q} on one scan (metadata frame count "
+                            f"{int(e.get('scan_count', 0))}, {bc.count_pixels(e['iw'])} pixels, {e['P']}x{e['L']} per frame): "
+                            f"{'Scan.shape' if q == 4 else 'Scan.num_frames'} = {a}, expected {want}")
             elif exp["red"] is not None:
                 want = show_shape(parse_img(exp["red"][0])[0] + [3])
                 if a != want:
@@ -815,13 +851,13 @@ def oracle(case, ia):
             if meta != exp:
                 return f"shape: Kymo.shape/pixels_per_line = {meta}, expected {exp}"
     else:
-        sc = int(e.get("scan_count", 0))
-        nf = sc if sc != 0 else -(-bc.count_pixels(e["iw"]) // ppf)
-        ypix, xpix = (L, P) if e["fast"] < e["slow"] else (P, L)
-        shape = ([nf] if nf > 1 else []) + [ypix, xpix, 3]
-        exp = f"{nf} {P} {L} [" + ",".join(map(str, shape)) + "]"
+        nf, shape = scan_meta_expected(e)
+        exp = f"{nf} {P} {L} " + show_shape(shape)
         if meta != exp:
             return f"shape: num_frames pixels_per_line lines_per_frame shape = {meta}, expected {exp}"
+        if len(ia) > 7 and ia[7] != show_shape(shape):
+            return (f"shape: Scan.shape asked first of a new scan (metadata frame count {int(e.get('scan_count', 0))}) = "
+                    f"{ia[7]}, expected {show_shape(shape)}")
     return None
 
 
@@ -1074,15 +1110,18 @@ def seq_pure_small_scope(quick):
     ]
     i = 0
     for kind, lay, ax in layouts:
-        alphabet = (0, 1, 2, 3, 4) if kind == "kymo" else (0, 1, 2, 3)
+        # scans: 4 = Scan.shape, 5 = Scan.num_frames (continuous scans: metadata frame count 0, reconstructed from the
+        # info wave and stored by the first num_frames; every second mode set: the count is in the metadata)
+        alphabet = (0, 1, 2, 3, 4) if kind == "kymo" else (0, 1, 2, 3, 4, 5)
         for mi, modes in enumerate(mode_sets):
+            extra = dict(ax, scan_count=("true" if mi == 1 else 0)) if kind == "scan" else ax
             for n in (1, 2, 3):
                 for qs in itertools.product(alphabet, repeat=n):
                     i += 1
                     if quick and i % 5:
                         continue
                     yield {"stream": "seq-small-scope", "kind": kind, "queries": list(qs),
-                           **gen_case("seq", lay, 1000 + mi, modes=modes, style="ids", **ax)}
+                           **gen_case("seq", lay, 1000 + mi, modes=modes, style="ids", **extra)}
 
 
 def reg_small_scope(quick):
@@ -1125,8 +1164,10 @@ def seq_random(rng, n):
                 modes[c] = sub.choice(["late", "late", "late", "late-far"])
                 nlate += 1
         qs = sub.sample([0, 1, 2], sub.choice([1, 2, 3, 3, 3]))
-        kinds = [0, 1, 2, 3] + ([4] if kind == "kymo" else [])
+        kinds = [0, 1, 2, 3, 4] + ([] if kind == "kymo" else [4, 5, 5])  # 4 = shape, 5 = Scan.num_frames
         qs += [sub.choice(kinds) for _ in range(sub.randint(0, 4))]
+        if kind == "scan" and sub.chance(0.4):  # a metadata query before any image was made
+            qs = [sub.choice([4, 4, 5])] + qs
         for c in COLORS:  # a stream beyond the first line needs more than one access before it yields an image
             if modes[c] == "late-far":
                 qs += [COLORS.index(c)] * sub.randint(1, 3)
@@ -1138,6 +1179,8 @@ def seq_random(rng, n):
                  count_dtype=sub.choice(["int64", "uint32"]))
         if sub.chance(0.3):
             g["style"] = "ids"
+        if kind == "scan":
+            g["scan_count"] = sub.choice([0, 0, "true"])
         yield {"stream": "seq-random", "subseed": i, "kind": kind, "queries": qs, **gen_case("seq", lay, sub.next() >> 1, **g)}
 
 
@@ -1358,7 +1401,7 @@ def extra_coverage(results):
                     ln = len(d) - m
                     key = ("early+" if m > 0 else "") + ("short" if ln < len(e["iw"]) else "long" if ln > len(e["iw"]) else "full")
                 modes_seen[key] = modes_seen.get(key, 0) + 1
-            if c["op"] in ("kymo", "scan") and len(r["impl"]) == 7:
+            if c["op"] in ("kymo", "scan") and len(r["impl"]) >= 7:
                 # which branch of channelPixels_spec / colourPixelsSpec each colour took, and the totals compared
                 for ci, col in enumerate(COLORS):
                     a, tot = r["impl"][ci], r["impl"][4 + ci]
